@@ -407,6 +407,7 @@ func checkC01(p *Prog, l *Ledger) {
 	checkCallChain(l, pinfo)
 	checkDanglingElse(l, pinfo)
 	checkNodeWiring(l, pinfo)
+	checkDeclaratorInitializer(l, pinfo)
 	// exhaustiveness: every node kind the parser builds has a clause in eval
 	built := map[string]bool{}
 	for _, name := range pinfo.Names {
@@ -930,4 +931,55 @@ func unaryIterativeShape(pinfo *parserInfo) []string {
 		problems = append(problems, "both forms (with and without prefix operators) must be parsed")
 	}
 	return uniqStrings(sortStrings(problems))
+}
+
+// checkDeclaratorInitializer: `variable → IDENTIFIER ( "=" expression )?` per declarator of a ধরি list: the initialiser
+// stored in a VarStmt node is the expression parsed after *this* declarator's `=`, and nil when this declarator has no
+// `=` — never what an earlier declarator of the list left behind.
+func checkDeclaratorInitializer(l *Ledger, pinfo *parserInfo) {
+	rule := "C01/S5-wiring/declarator-initializer"
+	m := pinfo.Models["varDeclaration"]
+	if m == nil {
+		l.Undecide(rule, "parser.varDeclaration", "", "not found")
+		return
+	}
+	nNodes := 0
+	mon := Monitor{Init: "none|", Step: func(s string, ev *Event) string {
+		ps := strings.SplitN(s, "|", 2)
+		switch ev.Op {
+		case "consume":
+			if ev.Out == "ok" && len(ev.Args) > 0 && ev.Args[0] == "IDENTIFIER" {
+				return "none|" // a new declarator begins
+			}
+		case "match":
+			if strings.Contains(ev.KV["set"], "EQUAL") && ev.Out == "true" {
+				return "eq|"
+			}
+		case "call":
+			if ev.Out == "ok" && ev.Args[0] == "expression" && ps[0] == "eq" {
+				return "init|" + ev.KV["res"]
+			}
+		case "field":
+			if len(ev.Args) == 3 && ev.Args[0] == "VarStmt" && ev.Args[1] == "Initializer" {
+				nNodes++
+				switch {
+				case ps[0] == "init" && ev.Args[2] != ps[1]:
+					return "!the declarator's initialiser is " + ev.Args[2] + ", not the expression parsed after its `=`"
+				case ps[0] != "init" && ev.Args[2] != "nil":
+					return "!a declarator written without `=` gets the initialiser " + ev.Args[2] + " (left over from an earlier declarator of the list): `ধরি a = f(), b;` would evaluate f() twice and bind b to its value"
+				}
+			}
+		}
+		return s
+	}}
+	ws := m.G.Run(mon)
+	for _, w := range ws {
+		l.Violate(rule, "parser.varDeclaration", posOf(w), w.Msg, witnessDetail(w))
+	}
+	if len(ws) == 0 && nNodes == 0 {
+		// a VarStmt built without an Initializer store has a nil initialiser: fine, but then nothing was checked
+		l.Discharge(rule, "parser.varDeclaration", "", "no Initializer is ever stored (always nil)", false)
+	} else if len(ws) == 0 {
+		l.Discharge(rule, "parser.varDeclaration", "", "each declarator's Initializer is its own expression, or nil without `=`", true)
+	}
 }
